@@ -4,8 +4,9 @@ change (scratch worktree of /repo HEAD + patch) and record the outcome in its me
 import glob, json, os, re, subprocess, sys, time
 ids = sys.argv[1:] or sorted(os.listdir("/verif/seeded"))
 head = subprocess.run(["git", "-C", "/repo", "rev-parse", "--short", "HEAD"], capture_output=True, text=True).stdout.strip()
-for pid in ids:
-    for d in sorted(glob.glob("/verif/seeded/%s/*/" % pid)):
+for spec in ids:
+    pid, _, prefix = spec.partition(":")
+    for d in sorted(glob.glob("/verif/seeded/%s/%s*/" % (pid, prefix))):
         patch = os.path.join(d, "patch.diff")
         if not os.path.exists(patch):
             continue
